@@ -86,6 +86,17 @@ Seeded changes missed by the first version and now caught with concrete replays 
           65535/65536/65537/135168 (4 dtypes per quick run, all in thorough), at end of file or not, through
           ExternalTensor / deserialize_tensor / LazyTensor; every well-formed case now calls numpy/tobytes/tofile on
           ONE object in one of 6 orders (spec["order"]).  Long prefixes are named by a pattern (Tie.pat) in case files.
+  C04-r3m2 from_numpy() accepts non-native byte order ('>i4' ...) while the byte builder swaps only on big-endian
+          machines -> big-endian tobytes().  Added array variants byteswapped / byteswapped_dtype / byteswapped_ir.tensor
+          (multi-byte numpy-native dtypes): "TypeError at construction" is an accepted rejection (spec["may_reject"], what
+          the clean tree does, histogram non_native_byte_order), "accepted" requires the little-endian reference bytes.
+  C04-r3m3 ir.tensor(python floats, dtype=<narrow float>) through float32 (double rounding).  Added the Python-value
+          constructor path (gen_pyvalues): scalars / flat / nested lists of every dtype with explicit dtype, default
+          dtypes (ints, floats, bools), and for FLOAT16/BFLOAT16/FP8/FP4 doubles next to every rounding decision
+          (midpoints of neighbouring representable values +- 1 ulp of double and +- 2^-30 of the gap, overflow threshold,
+          half the smallest subnormal).  Reference = numpy's direct conversion of the same values (RArray store), and
+          onnx.helper.make_tensor for FLOAT16/BFLOAT16/FLOAT4E2M1 (for the FP8 types the ONNX encoder itself rounds
+          differently from ml_dtypes — saturation / float32 detour — measured on the clean tree, so it is not used there).
 Unchanged tree: no VIOLATION for VERIF_SEED 0..3 (only KNOWN-FINDING string-trailing-nul).
 
 Shared-helper notes for the orchestrator: case files are compiled with at most 4 coqc in parallel (own pool instead of
@@ -393,6 +404,8 @@ def array_to_bits(a, name: str) -> list[int]:
     import numpy as np
     bw = BW(name)
     a = np.ascontiguousarray(a).reshape(-1)
+    if not a.dtype.isnative:
+        a = a.astype(a.dtype.newbyteorder("="))      # the element values, whatever the array's byte order
     if a.dtype.itemsize * 8 != max(bw, 8):
         raise AssertionError(f"numpy() returned itemsize {a.dtype.itemsize} for {name}")
     if bw == 128:
@@ -503,6 +516,45 @@ def proto_fields(spec: dict) -> dict:
     raise AssertionError(f)
 
 
+def py_encode(v) -> str:
+    """JSON-safe exact spelling of a Python scalar given to ir.tensor()."""
+    if isinstance(v, bool):
+        return f"b:{int(v)}"
+    if isinstance(v, int):
+        return f"i:{v}"
+    if isinstance(v, complex):
+        return f"c:{float(v.real).hex()},{float(v.imag).hex()}"
+    return f"f:{float(v).hex()}"
+
+
+def py_decode(sv: str):
+    k, v = sv.split(":", 1)
+    if k == "b":
+        return bool(int(v))
+    if k == "i":
+        return int(v)
+    if k == "c":
+        re, im = v.split(",")
+        return complex(float.fromhex(re), float.fromhex(im))
+    return float.fromhex(v)
+
+
+def nest(vals: list, shape: list):
+    """Python scalar / nested list of the given shape."""
+    import numpy as np
+    if not shape:
+        return vals[0]
+    a = np.empty(len(vals), dtype=object)
+    a[:] = vals
+    return a.reshape(shape).tolist()
+
+
+def pylist_reference_bits(ir, name: str, vals: list, shape, with_dtype: bool = True) -> list[int]:
+    """numpy's own conversion of the Python values to the element type (the reference for ir.tensor(values, dtype))."""
+    import numpy as np
+    return array_to_bits(np.array(nest(vals, shape), dtype=ir.DataType[name].numpy()).reshape(shape), name)
+
+
 class Built:
     """A constructed representation: the tensor (or the exception its construction raised) and the model term."""
 
@@ -545,6 +597,19 @@ def build(spec: dict, workdir: str, tag: str = "t") -> Built:
                 t = ir.Tensor(big[::2][:len(xs)].reshape(shape), name=tag)
             elif var == "ir.tensor":
                 t = ir.tensor(a, dtype=dt, name=tag)
+            elif var in ("byteswapped", "byteswapped_dtype", "byteswapped_ir.tensor"):
+                # same values in an array of the non-native byte order: rejected (TypeError) or little-endian bytes
+                term = f"(RArray {cdt} {cshape} {nl(store)})"
+                sw = a.astype(a.dtype.newbyteorder(">"))
+                if sw.dtype.isnative:
+                    raise AssertionError("harness: byte-swapped array is native")
+                t = (ir.Tensor(sw, name=tag) if var == "byteswapped" else ir.Tensor(sw, dtype=dt, name=tag)
+                     if var == "byteswapped_dtype" else ir.tensor(sw, name=tag))
+            elif var in ("pylist", "pylist_nodtype"):
+                # ir.tensor(python values[, dtype]): store = numpy's direct conversion of the same values (spec["bits"])
+                term = f"(RArray {cdt} {cshape} {nl(store)})"
+                vals = [py_decode(v) for v in p["values"]]
+                t = ir.tensor(nest(vals, shape), dtype=dt if var == "pylist" else None, name=tag)
             elif var == "offset_view":   # contiguous slice in the middle of a larger buffer
                 big = np.ones((len(xs) + 5,), dtype=a.dtype)
                 big[3:3 + len(xs)] = a.reshape(-1)
@@ -792,6 +857,10 @@ def observe(spec: dict, workdir: str) -> dict:
 
 # =========================================================================== oracle (the property itself)
 
+# dtypes for which onnx.helper.make_tensor rounds Python floats correctly (measured on the clean tree: see docstring)
+MAKE_TENSOR_REFERENCE = {"FLOAT16", "BFLOAT16", "FLOAT4E2M1"}
+
+
 def third_voice(spec: dict, obs: dict, workdir: str) -> list[str]:
     """ONNX reference encoder/decoder against the representation (numeric dtypes onnx supports)."""
     import onnx
@@ -806,6 +875,15 @@ def third_voice(spec: dict, obs: dict, workdir: str) -> list[str]:
         tp_ref = onnx.numpy_helper.from_array(ref_arr, "r")
     except Exception:  # noqa: BLE001  the reference does not know the dtype
         return bad
+    if spec["params"].get("variant") == "pylist" and name in MAKE_TENSOR_REFERENCE and spec["shape"]:
+        vals = [py_decode(v) for v in spec["params"]["values"]]
+        try:
+            mt = onnx.helper.make_tensor("r", int(ir.DataType[name]), list(spec["shape"]), vals)
+            dec = array_to_bits(onnx.numpy_helper.to_array(mt), name)
+            if obs["numpy"][0] == "ok" and dec != obs["numpy"][1]["bits"]:
+                bad.append(f"onnx.helper.make_tensor encodes the same Python values as {dec}, ir.tensor holds {obs['numpy'][1]['bits']}")
+        except Exception as e:  # noqa: BLE001
+            bad.append(f"ONNX reference encoder rejected the Python values: {type(e).__name__}: {e}"[:200])
     if tp_ref.HasField("raw_data") and tp_ref.raw_data != obs["tobytes"][1]:
         bad.append(f"tobytes() differs from onnx.numpy_helper.from_array(...).raw_data: {obs['tobytes'][1].hex()} vs {tp_ref.raw_data.hex()}")
     # decode our serialization with the reference decoder
@@ -838,6 +916,8 @@ def oracle(spec: dict, obs: dict) -> list[str]:
     bw = BW(name)
     mask = (1 << bw) - 1
     if "construct_error" in obs:
+        if spec.get("may_reject") and obs["construct_error"] == spec["may_reject"]:
+            return []      # an accepted rejection (e.g. non-native byte order); if accepted, everything below applies
         return [f"construction raised {obs['construct_error_text']}"]
     if obs["dtype"] != int(ir.DataType[name]):
         bad.append(f"dtype {obs['dtype']} != {int(ir.DataType[name])}")
@@ -1081,6 +1161,97 @@ def gen_wellformed(ck) -> list[dict]:
     return specs
 
 
+def bits_to_pyvalues(ir, name: str, xs: list[int]) -> list:
+    """Python scalars holding the values of the bit patterns (NaNs replaced by 1.0: tolist() loses payloads)."""
+    import math
+    vals = bits_to_array(ir, name, [len(xs)], xs).tolist()
+    out = []
+    for v in vals:
+        if isinstance(v, complex) and (math.isnan(v.real) or math.isnan(v.imag)):
+            v = complex(1.0, -2.0)
+        elif isinstance(v, float) and math.isnan(v):
+            v = 1.0
+        out.append(v)
+    return out
+
+
+def adversarial_floats(rng, ir, name: str, count: int) -> list[float]:
+    """Python floats (doubles) around the rounding decisions of a narrow float type: midpoints of neighbouring
+    representable values and the doubles next to them, the overflow threshold, half the smallest subnormal,
+    plus ordinary and exactly representable numbers."""
+    import math
+
+    import numpy as np
+    bw = BW(name)
+    npdt = ir.DataType[name].numpy()
+    allv = sorted({float(v) for v in np.arange(1 << bw, dtype=f"uint{bw}").view(npdt).astype(np.float64)
+                   if math.isfinite(float(v))}) if bw <= 16 else []
+    out = [0.0, -0.0, 1.0, -2.5, 0.1, 3.14159, float("inf"), -float("inf"), 1e-3, 123456.789]
+    if allv:
+        pos = [v for v in allv if v > 0]
+        mx, mn = allv[-1], pos[0]
+        step = mx - allv[-2]
+        thr = mx + step / 2                       # overflow threshold of round-to-nearest
+        out += [mx, thr, math.nextafter(thr, 0.0), math.nextafter(thr, math.inf), -math.nextafter(thr, 0.0),
+                mn, mn / 2, math.nextafter(mn / 2, 1.0), math.nextafter(mn / 2, 0.0), mn / 2 + 2.0 ** -60 if mn > 2.0 ** -40 else mn * 0.75,
+                mn * 1.5, math.nextafter(mn * 1.5, 1.0), math.nextafter(mn * 1.5, 0.0)]
+        while len(out) < count:
+            i = rng.randrange(len(allv) - 1)
+            a, b = allv[i], allv[i + 1]
+            mid = (a + b) / 2                     # exact in double for these formats
+            sgn = rng.choice([1.0, 1.0, -1.0])
+            out += [sgn * mid, sgn * math.nextafter(mid, math.inf), sgn * math.nextafter(mid, -math.inf),
+                    sgn * (mid + (b - a) * 2.0 ** -30), sgn * (mid - (b - a) * 2.0 ** -30), a]
+    rng.shuffle(out)
+    return out[:count]
+
+
+def gen_pyvalues(ck) -> list[dict]:
+    """ir.tensor(python values[, dtype]) — one of the property's observe points — and arrays of the non-native byte order"""
+    import onnx_ir as ir
+    rng = ck.rng
+    specs = []
+    modes = ["count", "random", "special"]
+    reps = 1 if not ck.thorough else 6
+    for name in NUMERIC():
+        bw = BW(name)
+        for r in range(reps):
+            # (a) Python values of every dtype, scalar / flat / nested, explicit dtype
+            for n in ((0, 1, 4, 6) if r == 0 else (rng.randrange(1, 12),)):
+                xs = gen_bits(rng, name, n, modes[(n + r) % 3])
+                vals = bits_to_pyvalues(ir, name, xs)
+                shape = rng.choice(shapes_for(rng, n)) if n else [0]
+                specs.append({"dtype": name, "shape": shape, "bits": pylist_reference_bits(ir, name, vals, shape), "rep": "array",
+                              "params": {"variant": "pylist", "values": [py_encode(v) for v in vals]},
+                              "order": rng.choice(ORDERS), "dests": gen_dests(rng, ref_nbytes(name, n), full=False)})
+            # (b) narrow float types: doubles next to every kind of rounding decision
+            if name in FLOATS and bw < 32:
+                for _ in range(4):
+                    vals = adversarial_floats(rng, ir, name, 16)
+                    shape = rng.choice([[16], [4, 4], [2, 2, 4]])
+                    specs.append({"dtype": name, "shape": shape, "bits": pylist_reference_bits(ir, name, vals, shape), "rep": "array",
+                                  "params": {"variant": "pylist", "values": [py_encode(v) for v in vals], "adversarial": True},
+                                  "order": rng.choice(ORDERS), "dests": gen_dests(rng, ref_nbytes(name, 16), full=False)})
+            # (c) arrays in the non-native byte order: either rejected with TypeError or little-endian bytes
+            if bw >= 16 and not str(ir.DataType[name].numpy()).startswith(("bfloat", "float8")):
+                for var in ("byteswapped", "byteswapped_dtype", "byteswapped_ir.tensor"):
+                    n = rng.choice([1, 2, 3, 7])
+                    specs.append({"dtype": name, "shape": rng.choice(shapes_for(rng, n)), "bits": gen_bits(rng, name, n, "count" if r == 0 else "random"),
+                                  "rep": "array", "params": {"variant": var}, "may_reject": "TypeError",
+                                  "order": rng.choice(ORDERS), "dests": gen_dests(rng, ref_nbytes(name, n), full=False)})
+    # (d) default dtypes of ir.tensor: ints -> INT64, floats -> FLOAT, bools -> BOOL
+    for name, mk in (("INT64", lambda: rng.randrange(-2 ** 63, 2 ** 63)), ("FLOAT", lambda: rng.choice([0.1, -2.5, 1e30, 1 + 2.0 ** -24 + 2.0 ** -50, 3.0e38 * 1.2, 1e-46])),
+                     ("BOOL", lambda: rng.random() < 0.5)):
+        for n in (1, 3, 6):
+            vals = [mk() for _ in range(n)]
+            shape = [n]        # the default dtype is chosen for scalars and FLAT sequences only (documented)
+            specs.append({"dtype": name, "shape": shape, "bits": pylist_reference_bits(ir, name, vals, shape), "rep": "array",
+                          "params": {"variant": "pylist_nodtype", "values": [py_encode(v) for v in vals]},
+                          "order": rng.choice(ORDERS), "dests": []})
+    return specs
+
+
+
 def gen_malformed(ck) -> list[dict]:
     """inputs outside the well-formed domain: the model must still predict what the code does (errors,
     numpy's resize zero-fill / truncation, pass-through of padding bits, conflicting storage fields)"""
@@ -1295,27 +1466,64 @@ def is_known_string(kind, ss, bad) -> bool:
 
 # =========================================================================== the check
 
+def _kind_of(msg: str) -> str:
+    return msg.split("(")[0].split(" ")[0]
+
+
 def shrink(spec: dict, workdir: str, fails) -> dict:
-    """greedy: fewer elements (flat shape), fewer destinations, simpler values"""
+    """greedy: fewer elements (flat shape), fewer destinations; a candidate counts only if it fails in the same way
+    as the original (same accessor), so a shrunk replay never shows a different, accidental failure"""
+    import onnx_ir as ir
     cur = json.loads(json.dumps(spec))
+    try:
+        want = {_kind_of(b) for b in check_spec(cur, workdir)[1]} - {"construction"}
+    except Exception:  # noqa: BLE001
+        want = set()
+
+    def same(c2) -> bool:
+        try:
+            got = {_kind_of(b) for b in check_spec(c2, workdir)[1]}
+        except Exception:  # noqa: BLE001
+            return False
+        return bool(got & want) if want else bool(got)
+
+    def cut(c, k):
+        c2 = dict(c, shape=[k])
+        if c["params"].get("variant") in ("pylist", "pylist_nodtype"):
+            vals = c["params"]["values"][:k]
+            c2["params"] = dict(c["params"], values=vals)
+            c2["bits"] = pylist_reference_bits(ir, c["dtype"], [py_decode(v) for v in vals], [k])
+        else:
+            c2["bits"] = c["bits"][:k]
+        return c2
     changed = True
     while changed:
         changed = False
         n = len(cur["bits"])
-        for k in ([n // 2, n - 1] if n > 1 else [0] if n == 1 else []):
-            c2 = dict(cur, bits=cur["bits"][:k], shape=[k])
-            if fails(c2):
-                cur, changed = c2, True
+        for k in ([n // 2, n - 1] if n > 1 else []):
+            if k >= 1 and same(cut(cur, k)):
+                cur, changed = cut(cur, k), True
                 break
+        if not changed and n > 1:
+            # drop the first element instead of the last
+            c2 = dict(cur)
+            if cur["params"].get("variant") in ("pylist", "pylist_nodtype"):
+                c2["params"] = dict(cur["params"], values=cur["params"]["values"][1:])
+                c2["bits"] = pylist_reference_bits(ir, cur["dtype"], [py_decode(v) for v in c2["params"]["values"]], [n - 1])
+            else:
+                c2["bits"] = cur["bits"][1:]
+            c2["shape"] = [n - 1]
+            if same(c2):
+                cur, changed = c2, True
         if len(cur.get("dests", [])) > 1:
             for d in cur["dests"]:
                 c2 = dict(cur, dests=[d])
-                if fails(c2):
+                if same(c2):
                     cur, changed = c2, True
                     break
-        if len(cur["shape"]) != 1:
+        if len(cur["shape"]) != 1 and cur["params"].get("variant") not in ("pylist", "pylist_nodtype"):
             c2 = dict(cur, shape=[len(cur["bits"])])
-            if fails(c2):
+            if same(c2):
                 cur, changed = c2, True
     return cur
 
@@ -1440,7 +1648,9 @@ def tables_runtime_check(ck) -> None:
 def run(ck) -> None:
     import logging
     import shutil
+    import warnings
     logging.disable(logging.WARNING)
+    warnings.simplefilter("ignore", RuntimeWarning)      # numpy: overflow / invalid value in casts of the adversarial floats
     ck.trust("Coq 8.16.1 kernel (coqc; vm_compute in the table theorem, the byte sweeps and the case files)",
              "harness/props/c04.py: fail-closed ast extraction of the dtype tables and dispatch sets (Gen/C04Gen.v), "
              "generators, observation of numpy()/tobytes()/tofile(), Coq literal printer, reference packer",
@@ -1475,14 +1685,17 @@ def run(ck) -> None:
                     js = json.load(f)
                 specs += js if isinstance(js, list) else [js]
     ck.coverage["corpus_cases"] = len(specs)
-    specs += gen_wellformed(ck) + gen_malformed(ck)
+    specs += gen_wellformed(ck) + gen_pyvalues(ck) + gen_malformed(ck)
     cases, failures = [], []
     for i, spec in enumerate(specs):
         spec.setdefault("params", {})
         spec.setdefault("dests", [])
         obs, bad = check_spec(spec, wd)
-        cases.append((spec, obs))
         ck.count()
+        if spec.get("may_reject"):
+            ck.hist("non_native_byte_order", "rejected:" + obs["construct_error"] if "construct_error" in obs else "accepted")
+        if not (spec.get("may_reject") and obs.get("construct_error") == spec["may_reject"]):
+            cases.append((spec, obs))
         ck.hist("dtype", spec["dtype"])
         ck.hist("representation", spec["rep"] + (":" + str(spec["params"].get("field") or spec["params"].get("variant") or "")
                                                  if spec["rep"] in ("proto", "array", "torch") else ""))
@@ -1622,7 +1835,9 @@ def search(ck, wd: str, seeds: list[dict], fails) -> None:
 def replay(rp: dict) -> int:
     import logging
     import shutil
+    import warnings
     logging.disable(logging.WARNING)
+    warnings.simplefilter("ignore", RuntimeWarning)
     wd = os.path.join(common.SCRATCH_ROOT, f"replay-C04-{os.getpid()}")
     os.makedirs(wd, exist_ok=True)
     try:
